@@ -703,4 +703,17 @@ theorem renderImage_eq {C : Type} (dflt : C) (w h : Nat) (sched : Nat → Nat) (
   rw [find_map_range (w * h) i (fun k => (sched k, (k % w, k / w, k))) _ (by intro k; rfl) hi]
 
 
+/-! ### DirectionalCamera -/
+
+theorem dirSearch_ok (ok : K → Bool) (n : Nat) (lo hi : K) (h : ok hi = true) :
+    ok (dirSearch ok n lo hi) = true := by
+  induction n generalizing lo hi with
+  | zero => simpa [dirSearch] using h
+  | succ n ih =>
+    unfold dirSearch
+    simp only []
+    split
+    · rename_i hd; exact ih _ _ hd
+    · exact ih _ _ h
+
 end M3d.Render
